@@ -62,8 +62,10 @@ theorem Family.poly_sound {R : Type} [CommRing R] {o : Ops R} (ho : RingLike o)
     {ks : List Nat} (hks : ks ∈ f.keys) {j : Nat} (hj : j < f.nOut ks) (env : Nat → R) :
     (f.post ks (look f.unit ks).outE j).eval o env = (f.spec ks j).eval o env := by
   have := (Family.outE_eq h htm hks).2 j hj
-  simp only [Family.compOK, Family.leafOK, hk] at this
-  exact polyEq_sound' ho this env
+  simp only [Family.compOK, Family.leafOK, hk, Bool.or_eq_true] at this
+  rcases this with h1 | h1
+  · rw [eq_of_beq h1]
+  · exact polyEq_sound' ho h1 env
 
 theorem Family.syn_sound {α : Type} (o : Ops α)
     (h : f.ok look = true) (htm : f.treeMode = false) (hk : f.kind = .syn)
@@ -80,9 +82,12 @@ theorem Family.frac_sound {K : Type} [Field K] [CharZero K] {o : Ops K} (ho : Fi
     (f.post ks (look f.unit ks).outE j).divOK o env ∧
     (f.post ks (look f.unit ks).outE j).eval o env = (f.spec ks j).eval o env := by
   have := (Family.outE_eq h htm hks).2 j hj
-  simp only [Family.compOK, Family.leafOK, hk, Bool.and_eq_true] at this
+  simp only [Family.compOK, Family.leafOK, hk, Bool.and_eq_true, Bool.or_eq_true] at this
   have hd := E.divOK_of_allowed ho _ this.1.2 env hall
-  exact ⟨hd, fracEq_sound ho this.1.1 env hd (E.divOK_of_allowed ho _ this.2 env hall)⟩
+  refine ⟨hd, ?_⟩
+  rcases this.1.1 with h1 | h1
+  · rw [eq_of_beq h1]
+  · exact fracEq_sound ho h1 env hd (E.divOK_of_allowed ho _ this.2 env hall)
 
 theorem Family.polyMod_sound {R : Type} [CommRing R] {o : Ops R} (ho : RingLike o)
     (h : f.ok look = true) (htm : f.treeMode = false) (hk : f.kind = .polyMod)
@@ -189,8 +194,10 @@ theorem Family.tree_poly_sound {R : Type} [CommRing R] {o : Ops R} (ho : RingLik
     ((look f.unit ks).out j).eval o env = (f.specT ks j).eval o env := by
   refine treeOK_sound ho env ?_ (Family.tree_elim h htm hks hj)
   intro a b hab
-  simp only [Family.leafOK, hk] at hab
-  exact polyEq_sound' ho hab env
+  simp only [Family.leafOK, hk, Bool.or_eq_true] at hab
+  rcases hab with h1 | h1
+  · rw [eq_of_beq h1]
+  · exact polyEq_sound' ho h1 env
 
 theorem Family.tree_syn_sound {R : Type} [CommRing R] {o : Ops R} (ho : RingLike o)
     (h : f.ok look = true) (htm : f.treeMode = true) (hk : f.kind = .syn)
@@ -218,9 +225,11 @@ theorem Family.tree_frac_sound {K : Type} [Field K] [CharZero K] {o : Ops K} (ho
     ((look f.unit ks).out j).eval o env = (f.specT ks j).eval o env := by
   refine treeOK_sound ho.toRingLike env ?_ (Family.tree_elim h htm hks hj)
   intro a b hab
-  simp only [Family.leafOK, hk, Bool.and_eq_true] at hab
-  exact fracEq_sound ho hab.1.1 env (E.divOK_of_allowed ho _ hab.1.2 env hall)
-    (E.divOK_of_allowed ho _ hab.2 env hall)
+  simp only [Family.leafOK, hk, Bool.and_eq_true, Bool.or_eq_true] at hab
+  rcases hab.1.1 with h1 | h1
+  · rw [eq_of_beq h1]
+  · exact fracEq_sound ho h1 env (E.divOK_of_allowed ho _ hab.1.2 env hall)
+      (E.divOK_of_allowed ho _ hab.2 env hall)
 
 theorem Family.tree_fracMod_sound {K : Type} [Field K] [CharZero K] {o : Ops K} (ho : FieldLike o)
     (h : f.ok look = true) (htm : f.treeMode = true) (hk : f.kind = .fracMod)
